@@ -9,7 +9,7 @@ VERIF = Path(__file__).resolve().parents[1]
 CLAIMED = {
     "C01": (
         "Lean 4 simulation proof: Props.C01.sound / sound_exec — every untagged end state of the model of SEVM.run's exploration core (worklist, dispatch, Exec.check, jumpi with visit counters and loop bound, --depth, Path.append/concretization), under every valuation satisfying its path, is reached by the reference EVM (Spec.Evm) with exactly that halt, those returned bytes and that storage/transient storage of the executing account (WRel); no bound on program size, steps or inputs, no assumption on the solver; word instructions through C06's op_exact. Tie: exact model-vs-implementation comparison of the exploration on generated core programs with a fixed oracle, plus pointwise differential of the REAL SEVM against the Lean reference EVM on structured programs over the whole supported instruction set (memory, storage, hashing, logs, calls, creations) with solver-found and random inputs",
-        "Proof for the core instruction set (stack/word/control/calldata/environment instructions, memory MLOAD/MSTORE/MSTORE8/CALLDATACOPY/CODECOPY, RETURN/REVERT with data, RETURNDATASIZE/COPY, SLOAD/SSTORE/TLOAD/TSTORE on concrete slots < 2^64 with the static-context check: the theorem covers halt kind, returned bytes AND the storage of the halting world; everything else ends the model path as stuck, so the theorem is stated for all programs); Props.C01.sound_calls extends the simulation to nested message calls (Model.SevmCalls.runC: CALL/CALLCODE with literal zero value, DELEGATECALL, STATICCALL to literal targets with known code, any nesting depth, snapshot rollback of every account's storage on a failing callee, static-flag inheritance, return-area truncation, RETURNDATASIZE/COPY) against Spec.Evm.exec, with WRelM describing the storage of every modelled account in the halting world; symbolic targets, precompile/cheat addresses, value-bearing calls and depth 1024 end the model path as stuck; hashing, symbolic slots, logs, value transfers and creations are covered by the differential run only (C08/C09 prove their components separately); halmos' own memory-limit errors are tagged end states about which nothing is claimed (hypothesis cfg.maxMem + 32 <= memLimit is visible in the statements). The 1024-item stack limit, which halmos does not model, is a tagged end state of the model (stackLimit) about which nothing is claimed, and a recorded known finding",
+        "Proof for the core instruction set (stack/word/control/calldata/environment instructions, memory MLOAD/MSTORE/MSTORE8/CALLDATACOPY/CODECOPY, RETURN/REVERT with data, RETURNDATASIZE/COPY, SLOAD/SSTORE/TLOAD/TSTORE on concrete slots < 2^64 with the static-context check: the theorem covers halt kind, returned bytes AND the storage of the halting world; everything else ends the model path as stuck, so the theorem is stated for all programs); Props.C01.sound_calls extends the simulation to nested message calls (Model.SevmCalls.runC: CALL/CALLCODE with literal zero value, DELEGATECALL, STATICCALL to literal targets with known code, any nesting depth, snapshot rollback of every account's storage on a failing callee, static-flag inheritance, return-area truncation, RETURNDATASIZE/COPY, LOG0-4 with rollback, EXTCODESIZE/EXTCODECOPY/CODESIZE on literal addresses) against Spec.Evm.exec, with WRelM describing the storage of every modelled account in the halting world; symbolic targets, precompile/cheat addresses, value-bearing calls and depth 1024 end the model path as stuck; hashing, symbolic slots, logs, value transfers and creations are covered by the differential run only (C08/C09 prove their components separately); halmos' own memory-limit errors are tagged end states about which nothing is claimed (hypothesis cfg.maxMem + 32 <= memLimit is visible in the statements). The 1024-item stack limit, which halmos does not model, is a tagged end state of the model (stackLimit) about which nothing is claimed, and a recorded known finding",
         "Trusted: Lean kernel, Spec.Evm as the meaning of EVM execution, Model.Sevm (hand model; int_of substitution, calldata size candidates, PUSH32 empty-keccak and the dynamic-array overflow quick check are approximated as stuck), z3 only as a search aid for inputs; known findings recorded for MSIZE, value-bearing CALL in a static frame, JUMPI with symbolic condition and invalid destination",
         "DESIGN.md §4 C01",
     ),
@@ -20,7 +20,7 @@ CLAIMED = {
         "DESIGN.md §4 C02",
     ),
     "C09": (
-        "Lean 4 theorems on an executable interaction-tree model of SEVM.call / SEVM.create (snapshots, value transfer, insufficient-fund branch, callbacks, returndata copy, depth limit): atomic / atomic_tree (a failing frame leaves code, storage, transient storage and balances as at its entry, for every callee behaviour and every tree), success_persists, caller_sees, frame_context (+table for CALL/STATICCALL/DELEGATECALL/CALLCODE/CREATE), static_enforced for SSTORE/TSTORE/LOG/CREATE with a proved counterexample for value-bearing CALL (recorded finding), value_conserved by structural induction over trees, insufficient_fails, depth_limit, kernel-checked agreement with Spec.Evm.exec on two call programs; tie: random and directed call trees (depth <= 4) compiled to contracts and run on the REAL SEVM, compared three ways with the Lean model (Driver/Calls) and the reference EVM, plus the generic SEVM-vs-reference differential on call scenarios",
+        "Lean 4 theorems on an executable interaction-tree model of SEVM.call / SEVM.create (snapshots, value transfer, insufficient-fund branch, callbacks, returndata copy, depth limit): atomic / atomic_tree (a failing frame leaves code, storage, transient storage and balances as at its entry, for every callee behaviour and every tree), success_persists, caller_sees, frame_context (+table for CALL/STATICCALL/DELEGATECALL/CALLCODE/CREATE), static_enforced for SSTORE/TSTORE/LOG/CREATE with a proved counterexample for value-bearing CALL (recorded finding), value_conserved by structural induction over trees, insufficient_fails, depth_limit, kernel-checked agreement with Spec.Evm.exec on two call programs; Props.C09Core proves atomicity (atomic_model, atomic_spec, atomic_sim), the snapshot discipline (conts_discipline) and the per-call-kind context table (context_table_model/_spec, context_sim) on the call machine Model.SevmCalls.runC that C01.sound_calls / C02.complete_calls relate to Spec.Evm.exec for every program; tie: random and directed call trees (depth <= 4) compiled to contracts and run on the REAL SEVM, compared three ways with the Lean model (Driver/Calls) and the reference EVM, plus the generic SEVM-vs-reference differential on call scenarios",
         "Full proof on the model for trees of any depth and width; CREATE2 and pranked calls are proved in the model but not exercised differentially (CREATE2 addresses are symbolic keccak terms in halmos); gas stipends are not modelled",
         "Trusted: Lean kernel, Spec.Evm, Model.Calls (hand model, three-way correspondence), the tree-to-bytecode compiler in tools/vlib/callsmodel.py",
         "DESIGN.md §4 C09",
